@@ -166,7 +166,7 @@ def events_for(root_is_loader, deep=False):
             ev += [('impl', t, 2), ('path', t, 0)]
     if not deep:
         for fn in (('ctor', 'mctor') if root_is_loader else ('repr', 'mrepr')) + ('impl', 'path'):
-            ev += [('mod', fn, None), ('mod', fn, 'A')]
+            ev += [('mod', fn, None), ('mod', fn, 'A'), ('mod', fn, 'R')]     # default fan-out / a user class / the shipped root named explicitly
         ev += [('yobj', 0), ('yobj', 1), ('yobj', 2), ('yobjsub', 0), ('yobjsub', 1)]
     else:
         ev += [('yobj', 1), ('yobjsub', 1)]
@@ -204,7 +204,7 @@ class World:
         if k == 'reprsame':
             return e[1] in self.cls and REPR_TYPES[e[2]] in self.model.eff(self.cls[e[1]], 'yaml_representers')
         if k == 'mod':
-            return e[2] is None or 'A' in self.cls
+            return e[2] is None or e[2] in self.cls
         if k == 'yobj':
             return e[1] == 0 or ('A' in self.cls and (e[1] != 2 or 'B' in self.cls))
         if k == 'yobjsub':       # subclass of a tagged YAMLObject class that does not declare a tag of its own: registers nothing
@@ -256,7 +256,7 @@ class World:
             m.add(c, 'yaml_path_resolvers', 'path-k', '!p%d' % i)
         elif k == 'mod':
             fn, tgt = e[1], e[2]
-            c = self.cls['A'] if tgt else None
+            c = self.cls[tgt] if tgt else None
             loaders = [c] if (c is not None and self.is_loader) else [yaml.Loader, yaml.FullLoader, yaml.UnsafeLoader]
             dumpers = [c] if (c is not None and not self.is_loader) else [yaml.Dumper]
             lk = {'Loader': c} if (c is not None and self.is_loader) else {}
